@@ -294,13 +294,17 @@ def captures(rep, binary, prop, fns=None, cuts=True):
     return len(events)
 
 
-def class_pin(e, s):
+NEEDED_IS_STATED = ("C02", "C10")      # the properties whose statement pins the size carried by Incomplete(Needed)
+
+
+def class_pin(e, s, needed_exact=False):
     """What the specification's answer pins on an arbitrary input: an accepted input pins value and position, an incomplete
-    one the class and (where the specification knows it) Needed, a rejected one the class (err / fail), not the error kind."""
+    one the class - and Needed only for the properties that state it (C02, C10: elsewhere the hint is not part of the
+    statement and a different one is not a violation) -, a rejected one the class (err / fail), not the error kind."""
     if s["k"] == "ok":
         return "full"
     if s["k"] == "inc":
-        return "inc_n" if s["n"] > 0 else "inc"
+        return "inc_n" if (needed_exact and s["n"] > 0) else "inc"
     return "reject"
 
 
@@ -334,7 +338,7 @@ def dfuzz(rep, binary, prop, cases, n, fns=None, run="dfuzz", nchunks=12, with_c
     spec = trace_parse(rep, prop, run + "_oracle", events, nchunks=nchunks)
     if len(spec) != len(events):
         raise vlib.ToolError("dfuzz: %d specification answers for %d events" % (len(spec), len(events)))
-    judge_events(rep, events, spec, pinf=class_pin,
+    judge_events(rep, events, spec, pinf=lambda e, s: class_pin(e, s, needed_exact=prop in NEEDED_IS_STATED),
                  keyf=lambda e: "dfuzz:%s:%s" % (e["fn"], vlib.hashlib.sha1(vlib.json.dumps([e["a"], e["input"]]).encode()).hexdigest()[:10]))
     ok_n = sum(1 for e in events if e["res"]["k"] == "ok")
     rep.cov["dfuzz"] = {"bases": len(base), "events": len(events), "accepted": ok_n}
@@ -372,6 +376,10 @@ def len_sweep(rep, binary, prop, nchunks=12):
     rep.add_tlc("MC_LenSweep", res)
     if len(cases) < 200:
         raise vlib.ToolError("MC_LenSweep emitted %d cases for %s" % (len(cases), prop))
+    if prop not in NEEDED_IS_STATED:
+        for c in cases:
+            if c["pin"] == "inc_n":
+                c["pin"] = "inc"
     outs = vlib.replay_cases(binary, d, cases, name="lensweep")
     vlib.judge_cases(rep, cases, outs, keyf=lambda c: "len:%s:site=%s:L=%s" % (c["fn"], c["note"]["site"], c["note"]["L"]))
     rep.cov["traces_validated_against_impl"] += len(cases)
